@@ -564,6 +564,75 @@ func main() {
 			rec(nil)
 		})
 
+		// complete offers (all four legal parameters, in every order) with one more parameter that
+		// is unknown, a duplicate or ill-valued at every position: an error, wherever it stands
+		r.Part("E3c-complete-offers-plus-one-bad-parameter", func(t *explore.T) {
+			type prm struct{ n, v string }
+			legalSets := [][]prm{
+				{{"server_no_context_takeover", ""}, {"client_no_context_takeover", ""}, {"server_max_window_bits", "10"}, {"client_max_window_bits", "12"}},
+				{{"server_no_context_takeover", ""}, {"client_no_context_takeover", ""}, {"server_max_window_bits", "15"}, {"client_max_window_bits", ""}},
+			}
+			bads := []prm{{"unknown_param", ""}, {"unknown_param", "1"}, {"server_no_context_takeover", ""}, {"client_no_context_takeover", "x"}, {"server_max_window_bits", "10"}, {"server_max_window_bits", "7"},
+				{"client_max_window_bits", "16"}, {"client_max_window_bits", ""}, {"server_max_window_bits", ""}}
+			var perms [][]int
+			var permute func(cur []int, used int)
+			permute = func(cur []int, used int) {
+				if len(cur) == 4 {
+					perms = append(perms, append([]int{}, cur...))
+					return
+				}
+				for i := 0; i < 4; i++ {
+					if used&(1<<i) == 0 {
+						permute(append(cur, i), used|1<<i)
+					}
+				}
+			}
+			permute(nil, 0)
+			for _, set := range legalSets {
+				for _, pm := range perms {
+					for pos := 0; pos <= 4; pos++ {
+						for _, bad := range bads {
+							set, pm, pos, bad := set, pm, pos, bad
+							var list []prm
+							for i, k := range pm {
+								if i == pos {
+									list = append(list, bad)
+								}
+								list = append(list, set[k])
+							}
+							if pos == 4 {
+								list = append(list, bad)
+							}
+							t.Do(func() string { return fmt.Sprintf("params %v", list) }, func() *explore.Fail {
+								var parts []string
+								for _, p := range list {
+									if p.v == "" {
+										parts = append(parts, p.n)
+									} else {
+										parts = append(parts, p.n+"="+p.v)
+									}
+								}
+								hdr := "permessage-deflate; " + strings.Join(parts, "; ")
+								parsed, ok := httphead.ParseOptions([]byte(hdr), nil)
+								if !ok || len(parsed) != 1 {
+									return explore.Failf("harness-header-parse", "%q", hdr)
+								}
+								var p P
+								perr := p.Parse(parsed[0])
+								e := &wsflate.Extension{}
+								ans, nerr := e.Negotiate(parsed[0])
+								if perr == nil || nerr == nil {
+									return explore.Failf("malformed-offer-accepted", "%q: Parse err=%v, Negotiate err=%v answer %q", hdr, perr, nerr, optStr(ans))
+								}
+								return nil
+							})
+						}
+					}
+				}
+			}
+			t.Outcome("refused")
+		})
+
 		// every integer value of the two window parameters, far beyond the legal range (values
 		// that wrap around a narrower integer type must not come back as legal ones), plus the
 		// classic non-numbers
